@@ -151,17 +151,29 @@ fn run_chain(c: &mut Case) {
             return;
         };
         let mut chunk = sd::pick_chunking(&mut c.rng, &structural);
-        let run = sd::drive_request(parser, &ch.bytes, fed, total, &mut chunk, &mut c.rng, initial0);
+        let mut run = sd::drive_request(parser, &ch.bytes, fed, total, &mut chunk, &mut c.rng, initial0);
         if let Some((s, m)) = run.problems.first() {
             fail(c, &ch, i, s, m.clone(), &[]);
             return;
+        }
+        let fed_at_done = run.fed;
+        // a driver that keeps draining the socket after `done` (only bytes of this request: see the domain note)
+        if run.done && c.rng.chance(1, 3) && run.fed < req_end {
+            match sd::feed_after_done(&mut run, &ch.bytes, req_end, &mut c.rng, 3) {
+                Ok(n) if n > 0 => c.l.count("fed_after_done"),
+                Ok(_) => {}
+                Err(m) => {
+                    fail(c, &ch, i, "call-after-done-changes-state", m, &[]);
+                    return;
+                }
+            }
         }
         if !run.done {
             fail(c, &ch, i, "preamble-not-done", format!("request {i}: all input fed ({} bytes) but the request parser is not done (hand-off at {handoff}, preamble ends at {})", run.fed, info.end_off), &[]);
             return;
         }
-        if run.fed < info.end_off {
-            fail(c, &ch, i, "done-early", format!("request {i}: done after {} bytes, preamble ends at {}", run.fed, info.end_off), &[]);
+        if fed_at_done < info.end_off {
+            fail(c, &ch, i, "done-early", format!("request {i}: done after {fed_at_done} bytes, preamble ends at {}", info.end_off), &[]);
             return;
         }
         fed = run.fed;
@@ -239,7 +251,19 @@ fn run_chain(c: &mut Case) {
                 Mode::Nothing => Plan::AfterCalls(0),
             })
             .collect();
-        if mode == Mode::Nothing {
+        // read-all mode, sometimes: convert at the held terminator as the parser stands — no
+        // set_stream(None), stream buffer possibly holding unconsumed bytes
+        let direct = mode == Mode::ReadAll && !order.is_empty() && c.rng.chance(1, 3);
+        if direct {
+            let lazy = Policy { consume_pct: *c.rng.pick(&[0usize, 10]), dest_pct: 0, ..pol.clone() };
+            sd::run_schedule_full(&mut d, &mut c.rng, &mut chunk2, &lazy, &plans, order, Some(&smodel), false, true);
+            if d.ok() && d.err.is_none() && d.epochs.last().map_or(false, |e| e.end_seen) {
+                c.l.count("direct_conversions_at_held_terminator");
+                if !d.shadow_stream.is_empty() {
+                    c.l.count("direct_conversions_with_unconsumed_stream_buffer");
+                }
+            }
+        } else if mode == Mode::Nothing {
             if d.set_stream(None).is_err() {
                 fail(c, &ch, i, "set-stream-none-rejected", "set_stream(None) rejected".into(), &d.trace);
                 return;
@@ -255,7 +279,7 @@ fn run_chain(c: &mut Case) {
             fail(c, &ch, i, "unexpected-error", format!("request {i}: stream parser failed with {e}"), &d.trace);
             return;
         }
-        if d.active().is_some() {
+        if d.active().is_some() && !(direct && d.epochs.last().map_or(false, |e| e.end_seen) && d.parser().is_record_boundary()) {
             // wedge / budget: inconclusive
             c.l.count("chains_abandoned_inconclusive");
             return;
@@ -430,6 +454,8 @@ pub fn run(ctx: &Ctx, evidence: Option<&PathBuf>) -> i32 {
     ctx.gate("mode_Nothing", 50);
     ctx.gate("differential_comparisons", 100);
     ctx.gate("final_into_input_checked", 100);
+    ctx.gate("fed_after_done", 100);
+    ctx.gate("direct_conversions_with_unconsumed_stream_buffer", 50);
     ctx.finish(
         "exploration",
         "chains of k=1..6 requests (all roles, same or different ids, interleaved management / stray records, optional partial record at the very end) through request::Parser -> into_stream_parser -> \
